@@ -41,11 +41,15 @@ type world struct {
 	xibcH      govtypes.Handler
 	aggH       govtypes.Handler
 	paramH     govtypes.Handler
-	tokReg     common.Address       // deployed ERC-20, registered as token pair (external owner)
-	tokFree    common.Address       // deployed ERC-20, not registered
-	tokTwin    common.Address       // deployed ERC-20 whose name/symbol/decimals match the bank metadata of tokReg's pair (UpdateTokenPairERC20 can succeed)
-	tokCoin    common.Address       // module-deployed ERC-20 of the registered coin "acoin"
-	supplyCoin []string             // bank denominations with supply (RegisterCoin can succeed)
+	tokReg     common.Address // deployed ERC-20, registered as token pair (external owner)
+	tokFree    common.Address // deployed ERC-20, not registered
+	tokTwin    common.Address // deployed ERC-20 whose name/symbol/decimals match the bank metadata of tokReg's pair (UpdateTokenPairERC20 can succeed)
+	tokCoin    common.Address // module-deployed ERC-20 of the registered coin "acoin"
+	supplyCoin []string       // bank denominations with supply (RegisterCoin can succeed)
+	// unregistered ERC-20 contracts whose name / symbol / decimals sit on boundary values (blank, only blanks, only the words the
+	// name sanitiser drops, very long, non-ASCII; 0 and 255 decimals)
+	tokOdd     []common.Address
+	tokOddName []string
 	storedMeta []banktypes.Metadata // bank metadata of the state the next content is generated for (refreshed per step)
 }
 
@@ -72,6 +76,17 @@ func baseWorld() *world {
 		w.tokReg = c.DeployERC20("Reg Token", "REG", 18)
 		w.tokFree = c.DeployERC20("Free Token", "FREE", 6)
 		w.tokTwin = c.DeployERC20("reg", "REG", 18)
+		for _, o := range []struct {
+			label, name, symbol string
+			dec                 uint8
+		}{
+			{"blankName", "", "BLK", 18}, {"spacesName", "  \t ", "SPC", 6}, {"droppedWordsName", " token coin", "DRP", 18}, {"coinOnlyName", "Coin", "CO", 8},
+			{"hugeName", strings.Repeat("N", 5000), "HUGE", 18}, {"unicodeName", "世界 token", "UNI", 18}, {"blankSymbol", "Blank Symbol", "", 18},
+			{"zeroDecimals", "Zero Dec", "ZD", 0}, {"maxDecimals", "Max Dec", "MD", 255}, {"blankNameZeroDecimals", "", "", 0}, {"slashName", "a/b", "A/B", 18},
+		} {
+			w.tokOdd = append(w.tokOdd, c.DeployERC20(o.name, o.symbol, o.dec))
+			w.tokOddName = append(w.tokOddName, o.label)
+		}
 		_, err := c.App.AggregateKeeper.RegisterERC20(c.Ctx(), w.tokReg)
 		kit.Must(err, "register erc20 pair")
 		pair, err := c.App.AggregateKeeper.RegisterCoin(c.Ctx(), coinMetadata("acoin", "Coin A", "CA", 18))
